@@ -1623,7 +1623,7 @@ class Transaction(object):
             else:
                 r_witness += b'\0'
             if sign_id is None:
-                if i.script_type == 'nonstandard_0001':
+                if i.script_type == 'nonstandard_0001' and i.unlocking_script == b'\0':
                     r += b'\1'
                 r += varstr(i.unlocking_script)
             elif sign_id == i.index_n:
